@@ -212,7 +212,12 @@ def conv2d (x w : Tensor) (bias : Option Tensor) (p : ConvP) : Except String Ten
   let [n, H, W, C] := x.shape | throw "conv: input rank"
   let [O, kh, kw, wc] := w.shape | throw "conv: filter rank"
   if n ≠ 1 then throw "unsupported:batch"
-  if wc ≠ C then throw "conv: filter depth"
+  -- grouped convolution (reference_integer_ops::ConvPerChannel / reference_ops::Conv): groups = input depth / filter depth,
+  -- output channel `oc` belongs to group `oc / (O / groups)` and reads the input channels `group * wc ..< (group + 1) * wc`
+  if wc = 0 ∨ C % wc ≠ 0 then throw "conv: filter depth"
+  let groups := C / wc
+  if groups = 0 ∨ O % groups ≠ 0 then throw "conv: filter depth"
+  let fpg := O / groups
   if p.mult.size ≠ O ∨ p.shift.size ≠ O then throw "conv: multiplier count"
   let ekh := (kh - 1) * p.dh + 1
   let ekw := (kw - 1) * p.dw + 1
@@ -221,13 +226,14 @@ def conv2d (x w : Tensor) (bias : Option Tensor) (p : ConvP) : Except String Ten
   if oh = 0 ∨ ow = 0 then throw "conv: empty output"
   let pt := padBefore p.same H p.sh ekh oh
   let pl := padBefore p.same W p.sw ekw ow
-  let ifm := fun y xx c => at3 x W C y xx c
   let mut out : Array Int := Array.mkEmpty (oh * ow * O)
   for oy in [0:oh] do
     for ox in [0:ow] do
       for oc in [0:O] do
-        let wgt := fun ky kx ic => w.data.getD (((oc * kh + ky) * kw + kx) * C + ic) 0 + p.wOff
-        let acc := convAcc H W C ifm kh kw wgt p.sh p.sw p.dh p.dw pt pl p.inOff oy ox
+        let g0 := (oc / fpg) * wc
+        let ifm := fun y xx c => at3 x W C y xx (g0 + c)
+        let wgt := fun ky kx ic => w.data.getD (((oc * kh + ky) * kw + kx) * wc + ic) 0 + p.wOff
+        let acc := convAcc H W wc ifm kh kw wgt p.sh p.sw p.dh p.dw pt pl p.inOff oy ox
         let acc := acc + (match bias with | some b => b.data.getD oc 0 | none => 0)
         let v := requant p.acc64 acc (p.mult.getD oc 0) (p.shift.getD oc 0) + p.outOff
         out := out.push (clamp v p.actMin p.actMax)
